@@ -5,6 +5,8 @@
 import Umya.Driver.Proto
 import Umya.Model.Csv
 import Umya.Spec.Rfc4180
+import Umya.Model.CsvWrap
+import Umya.Spec.CsvWrap
 namespace Umya.Driver.C20
 open Umya.Csv Umya.Proto
 
@@ -82,7 +84,14 @@ def handle (st : State) (args : List String) : State × String :=
             | [q] => some (some q)
             | _ => none
           match wrapOpt with
-          | none => (st, "unmodelled")
+          | none =>
+            -- a wrap string of two or more characters: the general model (Umya/Model/CsvWrap.lean)
+            (match st.book.activeSheet with
+             | some g =>
+               let t := csvTextW g (trim == "1") w
+               if isUnicodeEnc e then (st, "ok b:" ++ hexOfBytes (encodeWith legacyStub e t))
+               else (st, "ok t:" ++ encodeStr t)
+             | none => (st, "panic"))
           | some wo =>
             let o : Opts := ⟨e, trim == "1", wo⟩
             if isUnicodeEnc e then
@@ -99,6 +108,13 @@ def handle (st : State) (args : List String) : State × String :=
     match decodeStr h with
     | some v => (st, encodeStr (trim v))
     | none => (st, "bad-op")
+  | ["parsew", w, t] =>
+    match decodeStr w, decodeStr t with
+    | some w, some t =>
+      (match Umya.Rfc4180.parseW w t with
+       | some g => (st, gridStr g)
+       | none => (st, "err"))
+    | _, _ => (st, "bad-op")
   | ["parse", d, q, t] =>
     match decodeStr d, decodeStr q, decodeStr t with
     | some [d], some [q], some t =>
